@@ -20,6 +20,7 @@ pub fn tpl(name: &str) -> String {
         "MC" => "{msg}{pos}",
         "KM" => "{k}{msg}",
         "D" => "{wide_bar} {pos}/{len}",
+        "CP" => "{pos} {len} {percent}",
         other => other, // raw template text
     }.to_string()
 }
@@ -31,14 +32,15 @@ pub fn style(name: &str) -> ProgressStyle {
     } else { s }
 }
 
+/// u64 values travel as five little-endian limbs in base 2^15 (see spec/U64.tla) or as plain numbers.
 pub fn u64_of(v: &Value) -> u64 {
     if let Some(a) = v.as_array() {
         let mut r: u64 = 0;
-        for (i, l) in a.iter().enumerate() { r |= (l.as_u64().unwrap_or(0) & 0xffff) << (16 * i); }
+        for (i, l) in a.iter().enumerate() { if i < 5 { r |= (l.as_u64().unwrap_or(0) & 0x7fff).wrapping_shl(15 * i as u32); } }
         r
     } else { v.as_u64().unwrap_or(0) }
 }
-pub fn limbs(x: u64) -> Value { json!([x & 0xffff, (x >> 16) & 0xffff, (x >> 32) & 0xffff, (x >> 48) & 0xffff]) }
+pub fn limbs(x: u64) -> Value { json!([x & 0x7fff, (x >> 15) & 0x7fff, (x >> 30) & 0x7fff, (x >> 45) & 0x7fff, (x >> 60) & 0x7fff]) }
 pub fn small(x: u64) -> i64 { if x < (1 << 30) { x as i64 } else { -1 } }
 
 fn finish_of(name: &str, fm: &Value) -> ProgressFinish {
@@ -214,7 +216,7 @@ pub fn exec(world: &mut World, op: &Value) -> String {
 
 pub fn getters(world: &World, b: i64) -> Value {
     match world.bar(b) {
-        None => json!({"has": false, "pos": [0,0,0,0], "pos_s": 0, "len": [0,0,0,0], "len_s": 0, "haslen": false, "msg": [], "prefix": [], "fin": false}),
+        None => json!({"has": false, "pos": [0,0,0,0,0], "pos_s": 0, "len": [0,0,0,0,0], "len_s": 0, "haslen": false, "msg": [], "prefix": [], "fin": false}),
         Some(p) => {
             let r = catch_unwind(AssertUnwindSafe(|| {
                 let pos = p.position();
@@ -222,7 +224,7 @@ pub fn getters(world: &World, b: i64) -> Value {
                 json!({"has": true, "pos": limbs(pos), "pos_s": small(pos), "len": limbs(len.unwrap_or(0)), "len_s": small(len.unwrap_or(0)),
                        "haslen": len.is_some(), "msg": tok::cells_json(&p.message()), "prefix": tok::cells_json(&p.prefix()), "fin": p.is_finished()})
             }));
-            r.unwrap_or_else(|_| json!({"has": true, "poisoned": true, "pos": [0,0,0,0], "pos_s": -2, "len": [0,0,0,0], "len_s": -2, "haslen": false, "msg": [], "prefix": [], "fin": false}))
+            r.unwrap_or_else(|_| json!({"has": true, "poisoned": true, "pos": [0,0,0,0,0], "pos_s": -2, "len": [0,0,0,0,0], "len_s": -2, "haslen": false, "msg": [], "prefix": [], "fin": false}))
         }
     }
 }
@@ -259,6 +261,7 @@ pub fn run_history(hist: &Value, out: &mut dyn Write) {
     for (i, op) in ops.iter().enumerate() {
         let dt = op.get("dt").and_then(|x| x.as_u64()).unwrap_or(0); // microseconds
         clock::advance(dt * 1000 + op.get("dtn").and_then(|x| x.as_u64()).unwrap_or(0));
+        let failed_before = world.spy.0.lock().unwrap_or_else(|e| e.into_inner()).failed;
         let r = catch_unwind(AssertUnwindSafe(|| exec(&mut world, op)));
         let (ret, panic) = match r {
             Ok(s) => (s, String::new()),
@@ -268,9 +271,23 @@ pub fn run_history(hist: &Value, out: &mut dyn Write) {
                 ("panic".to_string(), if msg.is_empty() { "panic".into() } else { msg })
             }
         };
-        let (calls, q) = world.spy.take();
         let b = op.get("b").and_then(|x| x.as_i64()).unwrap_or(0);
+        // optional probe (C07): read fraction()/pos()/len() through update(), which also redraws
+        let mut frac: i64 = -1;
+        if cfg.get("probe").and_then(|x| x.as_bool()).unwrap_or(false) && panic.is_empty() {
+            if let Some(p) = world.bars.get(&b).and_then(|v| v.first()).cloned() {
+                let r = catch_unwind(AssertUnwindSafe(|| { let mut f = 0f32; p.update(|s| { f = s.fraction(); }); f }));
+                if let Ok(f) = r { frac = if f.is_nan() { -2 } else { (f as f64 * 1073741824.0).floor() as i64 }; }
+            }
+        }
+        let (calls, q) = world.spy.take();
+        let shown: Vec<i64> = calls.as_array().unwrap().iter().rev()
+            .filter(|c| c["k"] == "str" && c["u"] == 0)
+            .map(|c| c["c"].as_array().unwrap().iter().map(|x| x.as_i64().unwrap()).collect::<Vec<i64>>())
+            .find(|c| c.iter().any(|g| *g != 32)).unwrap_or_default();
         let mut rec = op.as_object().cloned().unwrap_or_default();
+        rec.insert("frac".into(), json!(frac));
+        rec.insert("shown".into(), json!(shown));
         rec.insert("h".into(), h.clone());
         rec.insert("i".into(), json!(i + 1));
         rec.insert("calls".into(), calls);
@@ -280,6 +297,8 @@ pub fn run_history(hist: &Value, out: &mut dyn Write) {
         rec.insert("panic".into(), json!(panic));
         rec.insert("get".into(), getters(&world, b));
         rec.insert("pipe".into(), json!(world.pipe_bytes()));
+        let failed_now = world.spy.0.lock().unwrap_or_else(|e| e.into_inner()).failed;
+        rec.insert("failed".into(), json!(failed_now - failed_before));
         // fill defaults so that the monitor can read every field on every record
         for (k, d) in [("b", json!(0)), ("n", json!(0)), ("m", json!([])), ("tpl", json!("")), ("fin", json!("")), ("fm", json!([])), ("len", json!(0)), ("idx", json!(0)), ("b2", json!(0)), ("a", json!("")), ("dt", json!(0)),
                        ("m0", json!([])), ("p0", json!([])), ("pos0", json!(0)), ("tabw", json!(8)), ("target", json!("spy"))] {
